@@ -27,6 +27,12 @@ RULE = (
     "(two jobs interleaved); exhaustive: >=2 jobs and >=3 operations. Distinct "
     "by SHA-1 of the canonical case JSON."
 )
+RULE += (
+    " Thorough tier additionally, split among the workers: small-scope exhaustive "
+    "enumeration - all 29331 instances with job lengths (1) (2) (3) (1,1) (1,2) "
+    "(2,1) (2,2) (1,1,1) (1,1,2) (1,2,1) (2,1,1), machine sets {[0],[1],[0,1]}, "
+    "durations {0,1,3} - with every dispatch history of each (jsverif/smallscope.py)."
+)
 BUDGET = {"quick": 1200, "thorough": 12000}
 ASSUMPTIONS = [
     "the feasibility checker in jsverif/feasible.py is the definition of feasible",
@@ -162,8 +168,35 @@ def _exhaustive(case, ctx):
     ctx.nontrivial = n >= 3 and len(inst["durations"]) >= 2
 
 
+def worker_cases(tier, index, n):
+    if tier != "thorough":
+        return
+    from .. import smallscope
+
+    for inst in smallscope.shard(index, n):
+        yield {"mode": "small_scope", "inst": inst}
+
+
+def _small_scope(case, ctx):
+    from .. import smallscope
+
+    inst = case["inst"]
+    instance = build_instance(inst)
+    n = ref(inst).n_ops
+    for prefix in smallscope.all_prefixes(inst):
+        d = Dispatcher(instance)
+        smallscope.replay(inst, instance, prefix, d)
+        _check_state(ctx, inst, d, len(prefix), n, f"history {prefix}")
+        ctx.count("small_scope_nodes")
+    ctx.count("small_scope_instances")
+    ctx.label("mode=small_scope")
+    ctx.nontrivial = n >= 3 and len(inst["durations"]) >= 2
+
+
 def check_case(case, ctx):
-    if case["mode"] == "exhaustive":
+    if case["mode"] == "small_scope":
+        _small_scope(case, ctx)
+    elif case["mode"] == "exhaustive":
         _exhaustive(case, ctx)
     else:
         _sequence(case, ctx)
